@@ -24,7 +24,31 @@ isZeroInsert_exists times_zero_dt_segment propagators_merge_equal propagators_re
 propagators_refine_inner total_propagator_refine eigh_contract_time_unit hamiltonian_time_unit
 propagators_time_unit propagators_time_unit_eigh times_time_unit tau_time_unit
 total_propagator_time_unit total_propagator_invariant isSegmentCut_of_model'''.split()
-LEAN_MODULES = ['FFVerif.Props.C13', 'FFVerif.Props.C08Inv', 'FFVerif.Props.C13Prop']
+LEAN_MODULES = ['FFVerif.Props.C13', 'FFVerif.Props.C08Inv', 'FFVerif.Props.C13Prop', 'FFVerif.Props.C01Unique',
+                'FFVerif.Props.C13Second', 'FFVerif.Props.C13SecondShifts', 'FFVerif.Props.C13SecondRefine',
+                'FFVerif.Props.C10Unique']
+# modules C13Second / C13SecondShifts / C13SecondRefine: the SECOND-order filter function (and the frequency shifts)
+# under time-unit scaling, zero-length segments, splits / merges / arbitrary refinements, operator order;
+# bilinearity in the sensitivities
+THEOREMS += [
+    'FFVerif.C13.secondOrderEntry_scale', 'FFVerif.C13.secondOrder_masks_scale',
+    'FFVerif.C13.secondOrder_time_unit_of_guard', 'FFVerif.C13.firstOrderEntry_neZero_scale',
+    'FFVerif.C13.secondOrder_time_unit', 'FFVerif.C13.secondOrder_time_unit_neZero',
+    'FFVerif.C13.secondOrder_drop_zero_segments', 'FFVerif.C13.secondOrder_zero_dt_segment',
+    'FFVerif.C13.secondOrder_zero_dt_segment_congr', 'FFVerif.C13.secondOrder_perm_opers',
+    'FFVerif.C13.secondOrder_perm_basis', 'FFVerif.C13.secondOrder_split_segment_of_exact',
+    'FFVerif.C13.secondOrder_split_segment', 'FFVerif.C13.secondOrder_split_segment_masks',
+    'FFVerif.C13.isCutData_exists', 'FFVerif.C13.secondOrder_split_segment_model',
+    'FFVerif.C13.secondOrder_merge_equal', 'FFVerif.C13.secondOrder_coeffs_factor',
+    'FFVerif.C13.secondOrder_scale_coeffs', 'FFVerif.C13.secondOrder_linear_coeffs_left',
+    'FFVerif.C13.secondOrder_linear_coeffs_right', 'FFVerif.C13.secondOrder_linear_opers_right',
+    'FFVerif.C13.secondOrder_linear_opers_left', 'FFVerif.C13.shiftEntry_rescale',
+    'FFVerif.C13.frequency_shifts_rescale', 'FFVerif.C13.frequency_shifts_time_unit',
+    'FFVerif.C13.frequency_shifts_time_unit_coeffs', 'FFVerif.C13.frequency_shifts_split_segment',
+    'FFVerif.C13.frequency_shifts_zero_dt_segment', 'FFVerif.C13.secondOrder_refine',
+    'FFVerif.C10.secondOrderFF_eigh_independent']
+THEOREMS += ['FFVerif.C01.cm_eigh_independent', 'FFVerif.C01.cm_eigh_independent_diagonalize',
+             'FFVerif.C01.ff_eigh_independent', 'FFVerif.C01.infidelity_eigh_independent']   # each re-segmented pulse has its own eigh output
 PINS = ['pinControlMatrixFromScratch', 'pinDiagonalize']
 GEN_SITES = c01.GEN_SITES
 COMPONENTS = c01.COMPONENTS
